@@ -140,7 +140,6 @@ func (d *ioDelegate) Write(p []byte) (int, error) {
 
 // dropCache gives up the entry that is being written.
 func (d *ioDelegate) dropCache() {
-	os.Remove(d.cache.Name())
 	d.cache.Discard()
 	d.cache = nil
 }
@@ -210,10 +209,6 @@ func (d *ioDelegate) TryCache(h hash.Hash, data []byte) (bool, error) {
 	if err != nil {
 		f, err := cache.CreateLevel(dir, h, rsum, dsum, flate.BestSpeed)
 		if err != nil {
-			if f != nil {
-				os.Remove(f.Name())
-				f.Discard()
-			}
 			return false, nil
 		}
 		d.cache = f
@@ -265,15 +260,12 @@ var pendingCaches []*cache.File
 func commitCaches(ok bool) {
 	for _, f := range pendingCaches {
 		if !ok {
-			// The entry of a failed run must never be valid under its name:
-			// it is not finalised, whether or not it can be unlinked.
-			os.Remove(f.Name())
+			// The entry of a failed run never takes its place.
 			f.Discard()
 			continue
 		}
-		if err := f.Close(); err != nil {
-			os.Remove(f.Name())
-		}
+		// An entry that cannot be finalised removes itself.
+		f.Close()
 	}
 	pendingCaches = nil
 }
